@@ -535,9 +535,9 @@ class ResourceQuerySegment(object):
             rqs = ""
         else:
             rqs = self.header.encode()
-        if len(rqs):
-            rqs += "/"
         if len(query):
+            if len(rqs):
+                rqs += "/"
             return f"{rqs}{query}"
         else:
             return rqs
